@@ -164,6 +164,9 @@ Proof. unfold frel_next. destruct (Nat.ltb _ _); [reflexivity | apply fholds_bla
 Lemma flane_free_true st i : flane_free st i = true -> nth i (flanes st) None = None.
 Proof. unfold flane_free. destruct (nth i (flanes st) None); congruence. Qed.
 
+Lemma some_pair_inj {A B} (a c : A) (b d : B) : Some (a, b) = Some (c, d) -> a = c /\ b = d.
+Proof. intros H. inversion H. auto. Qed.
+
 Ltac fstep_cases H :=
   unfold fstep in H;
   match type of H with
@@ -175,7 +178,7 @@ Ltac fstep_cases H :=
   repeat match type of H with
          | context [if ?c then _ else _] => destruct c eqn:?
          | context [match ?c with _ => _ end] => destruct c eqn:?
-         end; try discriminate H; injection H as <- <-.
+         end; try discriminate H; apply some_pair_inj in H as [<- <-].
 
 Lemma fstep_InvL st t st' rs : FInvL st -> fstep st t = Some (st', rs) -> FInvL st'.
 Proof.
@@ -452,4 +455,975 @@ Section FProofs.
     unfold handle_ok. destruct h as [[s0|] [nd|]]; cbn [hslot]; intros H E; try discriminate;
       try contradiction. inversion E; subst. exists nd. tauto.
   Qed.
+
+  Lemma nkey_snoc nds x nd : (nd < length nds)%nat -> nkey (nds ++ [x]) nd = nkey nds nd.
+  Proof. intros. unfold nkey. rewrite app_nth1; auto. Qed.
+  Lemma nval_snoc nds x nd : (nd < length nds)%nat -> nval (nds ++ [x]) nd = nval nds nd.
+  Proof. intros. unfold nval. rewrite app_nth1; auto. Qed.
+  Lemma nkey_setn_neq nds a x nd : a <> nd -> nkey (setn nds a x) nd = nkey nds nd.
+  Proof. intros. unfold nkey. rewrite nth_setn_neq; auto. Qed.
+  Lemma nval_setn_neq nds a x nd : a <> nd -> nval (setn nds a x) nd = nval nds nd.
+  Proof. intros. unfold nval. rewrite nth_setn_neq; auto. Qed.
+
+  (** Slot = NextSlot++ ; Handles[H] := (Slot, node(Slot)). *)
+  Lemma mem_reserve n sl nds mp nx cnt hs t :
+    MemOK n sl nds mp nx cnt hs -> (t < n)%nat -> nth t hs dhandle = dhandle ->
+    MemOK n sl (nds ++ [mkFNode None nx]) mp (nx + 1) cnt
+          (setn hs t (mkHandle (Some nx) (Some (length nds)))).
+  Proof.
+    intros HM Ht Hd. destruct HM as [m1 m2 m3 m4 m5 m6 m7 m8 m9 m10 m11].
+    assert (Hb : forall nd, In nd mp -> (nd < length nds)%nat) by (intros nd H; apply (m6 nd H)).
+    constructor; auto.
+    - rewrite length_setn. auto.
+    - lia.
+    - intros nd Hnd. destruct (m6 nd Hnd) as (a & b & c & d & e).
+      rewrite nkey_snoc, nval_snoc by auto. rewrite app_length. simpl. repeat split; auto; lia.
+    - rewrite (map_ext_in _ (nkey nds)); auto. intros nd Hnd. apply nkey_snoc. auto.
+    - intros t0 Ht0. rewrite nth_setn, m3.
+      destruct (Nat.eqb t t0 && Nat.ltb t0 n)%bool eqn:E.
+      + cbn [handle_ok]. rewrite app_length. simpl. unfold nval, nkey.
+        rewrite app_nth2 by lia. rewrite Nat.sub_diag. cbn. repeat split; auto; try lia.
+        * intros Hi. apply Hb in Hi. lia.
+        * intros nd' Hnd'. destruct (m6 nd' Hnd') as (a & b & c & d & e).
+          fold (nval (nds ++ [mkFNode None nx]) nd'). rewrite nval_snoc by auto. lia.
+      + pose proof (m8 t0 Ht0) as Hok. unfold handle_ok in *.
+        destruct (nth t0 hs dhandle) as [[s0|] [nd0|]]; auto.
+        destruct Hok as (a & b & c & d & e & f). rewrite app_length. simpl.
+        rewrite nkey_snoc, nval_snoc by auto. repeat split; auto; try lia.
+        intros nd' Hnd'. rewrite nval_snoc by auto. auto.
+    - intros t1 t2 Ht1 Ht2 Hne. rewrite !nth_setn, m3.
+      destruct (Nat.eqb t t1 && Nat.ltb t1 n)%bool eqn:E1;
+        destruct (Nat.eqb t t2 && Nat.ltb t2 n)%bool eqn:E2; try lia.
+      + cbn [hslot hnode]. split; intros x Hx; inversion Hx; subst x; intros Hc.
+        * destruct (handle_some _ _ _ _ _ (m8 t2 Ht2) Hc) as (nd & _ & _ & _ & _ & _ & Hr & _). lia.
+        * pose proof (m8 t2 Ht2) as Hok. unfold handle_ok in Hok.
+          destruct (nth t2 hs dhandle) as [[s0|] [nd0|]]; cbn [hnode] in Hc; try discriminate;
+            try contradiction. inversion Hc; subst. lia.
+      + cbn [hslot hnode]. split; intros x Hx Hc; inversion Hc; subst x.
+        * destruct (handle_some _ _ _ _ _ (m8 t1 Ht1) Hx) as (nd & _ & _ & _ & _ & _ & Hr & _). lia.
+        * pose proof (m8 t1 Ht1) as Hok. unfold handle_ok in Hok.
+          destruct (nth t1 hs dhandle) as [[s0|] [nd0|]]; cbn [hnode] in Hx; try discriminate;
+            try contradiction. inversion Hx; subst. lia.
+      + apply m9; auto.
+    - intros i nd Hi. destruct (m10 i nd Hi) as [[H1 H2]|(t0 & Ht0 & H0)].
+      + left. split; auto. rewrite nval_snoc; auto.
+      + right. exists t0. split; auto. rewrite nth_setn_neq; auto. intros ->. rewrite Hd in H0.
+        discriminate.
+    - intros i Hi. destruct (N.eq_dec i nx) as [->|Hne].
+      + right. exists t. split; auto. rewrite nth_setn_eq by lia. reflexivity.
+      + destruct (m11 i ltac:(lia)) as [(nd & H1 & H2)|(t0 & Ht0 & H0)].
+        * left. exists nd. split; auto. rewrite nval_snoc; auto.
+        * right. exists t0. split; auto. rewrite nth_setn_neq; auto. intros ->. rewrite Hd in H0.
+          discriminate.
+  Qed.
+
+  (** The slot array grows. *)
+  Lemma mem_grow n sl nds mp nx cnt hs ns :
+    MemOK n sl nds mp nx cnt hs -> cnt <= ns ->
+    MemOK n (sl ++ repeat None (N.to_nat ns - N.to_nat cnt)) nds mp nx ns hs.
+  Proof.
+    intros HM Hns. destruct HM as [m1 m2 m3 m4 m5 m6 m7 m8 m9 m10 m11].
+    constructor; auto.
+    - lia.
+    - rewrite app_length, repeat_length. lia.
+    - intros nd Hnd. destruct (m6 nd Hnd) as (a & b & c & d & e).
+      repeat split; auto; try lia. rewrite app_nth1 by lia. auto.
+    - intros i nd Hi. destruct (Nat.lt_ge_cases i (length sl)) as [Hl|Hl].
+      + rewrite app_nth1 in Hi by auto. auto.
+      + rewrite app_nth2 in Hi by auto.
+        destruct (Nat.lt_ge_cases (i - length sl) (N.to_nat ns - N.to_nat cnt)) as [Hl2|Hl2].
+        * rewrite nth_repeat' in Hi by auto. discriminate.
+        * rewrite nth_overflow in Hi by (rewrite repeat_length; auto). discriminate.
+  Qed.
+
+  (** A store into the thread's own reserved slot. *)
+  Lemma mem_write n sl nds mp nx cnt hs t s nd v :
+    MemOK n sl nds mp nx cnt hs -> (t < n)%nat ->
+    nth t hs dhandle = mkHandle (Some s) (Some nd) -> s < cnt -> (v = Some nd \/ v = None) ->
+    MemOK n (setn sl (N.to_nat s) v) nds mp nx cnt hs.
+  Proof.
+    intros HM Ht Hh Hs Hv. destruct HM as [m1 m2 m3 m4 m5 m6 m7 m8 m9 m10 m11].
+    pose proof (m8 t Ht) as Hok. rewrite Hh in Hok. cbn [handle_ok] in Hok.
+    destruct Hok as (a & b & c & d & e & f).
+    constructor; auto.
+    - rewrite length_setn. auto.
+    - intros nd' Hnd'. destruct (m6 nd' Hnd') as (a' & b' & c' & d' & e').
+      split; [auto|]. split; [auto|]. split; [auto|]. split; [auto|].
+      rewrite nth_setn_neq; auto. specialize (f nd' Hnd'). lia.
+    - intros i nd0. rewrite nth_setn.
+      destruct (Nat.eqb (N.to_nat s) i && Nat.ltb i (length sl))%bool eqn:E; [|apply m10].
+      intros Hi. destruct Hv as [-> | ->]; [|discriminate]. inversion Hi; subst nd0.
+      right. exists t. split; auto. rewrite Hh. f_equal. f_equal. lia.
+  Qed.
+
+  (** [Mapping.get] inserts the thread's node. *)
+  Lemma mem_insert n sl nds mp nx cnt hs t s nd k :
+    MemOK n sl nds mp nx cnt hs -> (t < n)%nat ->
+    nth t hs dhandle = mkHandle (Some s) (Some nd) -> s < cnt ->
+    nth (N.to_nat s) sl None = Some nd ->
+    (forall nd', In nd' mp -> nkey nds nd' <> Some k) ->
+    MemOK n sl (setn nds nd (mkFNode (Some k) s)) (nd :: mp) nx cnt (setn hs t dhandle).
+  Proof.
+    intros HM Ht Hh Hs Hsl Hk. destruct HM as [m1 m2 m3 m4 m5 m6 m7 m8 m9 m10 m11].
+    pose proof (m8 t Ht) as Hok. rewrite Hh in Hok. cbn [handle_ok] in Hok.
+    destruct Hok as (a & b & c & d & e & f).
+    assert (Hne : forall nd', In nd' mp -> nd <> nd') by (intros nd' H ->; auto).
+    assert (Hnew : nth nd (setn nds nd (mkFNode (Some k) s)) dfnode = mkFNode (Some k) s)
+      by (apply nth_setn_eq; auto).
+    constructor; auto.
+    - rewrite length_setn. auto.
+    - constructor; auto.
+    - intros nd' [<-|Hnd'].
+      + rewrite length_setn. unfold nkey, nval. rewrite Hnew. cbn. repeat split; eauto; lia.
+      + destruct (m6 nd' Hnd') as (a' & b' & c' & d' & e').
+        rewrite length_setn, nkey_setn_neq, nval_setn_neq by auto. repeat split; auto; lia.
+    - cbn [map]. constructor.
+      + unfold nkey at 1. rewrite Hnew. cbn. intros Hi. apply in_map_iff in Hi as (nd' & H1 & H2).
+        rewrite nkey_setn_neq in H1 by auto. apply (Hk nd' H2). auto.
+      + rewrite (map_ext_in _ (nkey nds)); auto. intros nd' Hnd'. apply nkey_setn_neq. auto.
+    - intros t0 Ht0. rewrite nth_setn, m3.
+      destruct (Nat.eqb t t0 && Nat.ltb t0 n)%bool eqn:E; [exact I|].
+      assert (Hnt : t0 <> t) by lia.
+      pose proof (m8 t0 Ht0) as Hok. pose proof (m9 t0 t Ht0 Ht Hnt) as [Hd1 Hd2].
+      unfold handle_ok in *. destruct (nth t0 hs dhandle) as [[s0|] [nd0|]] eqn:E0; auto.
+      destruct Hok as (a0 & b0 & c0 & d0 & e0 & f0). rewrite Hh in Hd1, Hd2. cbn in Hd1, Hd2.
+      assert (nd0 <> nd) by (intros ->; eapply Hd2; eauto).
+      assert (s0 <> s) by (intros ->; eapply Hd1; eauto).
+      rewrite length_setn, nkey_setn_neq, nval_setn_neq by auto.
+      repeat split; auto; try lia.
+      * intros [Hc|Hc]; auto.
+      * intros nd' [<-|Hnd']; [unfold nval; rewrite Hnew; cbn; auto|].
+        rewrite nval_setn_neq by auto. auto.
+    - intros t1 t2 Ht1 Ht2 Hn12. rewrite !nth_setn, m3.
+      destruct (Nat.eqb t t1 && Nat.ltb t1 n)%bool eqn:E1;
+        destruct (Nat.eqb t t2 && Nat.ltb t2 n)%bool eqn:E2; try lia;
+        cbn [dhandle hslot hnode]; try (split; intros x Hx; discriminate);
+        try (split; intros x Hx Hc; discriminate).
+      apply m9; auto.
+    - intros i nd0 Hi. destruct (m10 i nd0 Hi) as [[H1 H2]|(t0 & Ht0 & H0)].
+      + left. split; [right; auto|]. rewrite nval_setn_neq; auto.
+      + destruct (Nat.eq_dec t0 t) as [->|Hnt].
+        * assert (Hq : nd0 = nd /\ N.of_nat i = s) by (rewrite Hh in H0; inversion H0; auto).
+          destruct Hq as [-> Hq]. left. split; [left; auto|].
+          unfold nval. rewrite Hnew. cbn. lia.
+        * right. exists t0. split; auto. rewrite nth_setn_neq; auto.
+    - intros i Hi. destruct (m11 i Hi) as [(nd' & H1 & H2)|(t0 & Ht0 & H0)].
+      + left. exists nd'. split; [right; auto|]. rewrite nval_setn_neq; auto.
+      + destruct (Nat.eq_dec t0 t) as [->|Hnt].
+        * assert (Hq : i = s) by (rewrite Hh in H0; cbn in H0; inversion H0; auto).
+          left. exists nd. split; [left; auto|].
+          unfold nval. rewrite Hnew. cbn. auto.
+        * right. exists t0. split; auto. rewrite nth_setn_neq; auto.
+  Qed.
+
+  Lemma fetch_now_spec st hist i : FInvC st hist ->
+    fetch_now st i = None \/ pub_at (fnodes st) (fmap st) i (fetch_now st i).
+  Proof.
+    intros HC. destruct (FC_mem _ _ HC) as [m1 m2 m3 m4 m5 m6 m7 m8 m9 m10 m11].
+    unfold fetch_now. destruct (i <? fcount st) eqn:E; auto.
+    destruct (nth (N.to_nat i) (fslots st) None) as [nd|] eqn:En; auto.
+    destruct (m10 _ _ En) as [[H1 H2]|(t & Ht & H0)].
+    - right. exists nd. repeat split; auto. lia.
+    - left. pose proof (m8 t Ht) as Hok. rewrite H0 in Hok. cbn [handle_ok] in Hok.
+      unfold nkey in Hok. tauto.
+  Qed.
+
+  Ltac kill_mismatch Hloc :=
+    try solve [exfalso; unfold FLocal, is_OIns in Hloc; cbn [ftpc ftodo hd_error] in Hloc;
+               repeat match goal with
+                      | H : _ /\ _ |- _ => destruct H
+                      | H : exists _, _ |- _ => destruct H
+                      end; congruence].
+
+  Lemma fstep_InvC st hist t st' rs :
+    FInvL st -> FInvC st hist -> fstep st t = Some (st', rs) ->
+    FInvC st' (hist ++ map (pair t) rs).
+  Proof.
+    intros HL HC H.
+    pose proof (FC_mem _ _ HC) as HM.
+    fstep_cases H;
+      apply (nth_error_nth_lt _ _ _ dfthread) in Hth as [Hth Ht];
+      pose proof (FC_local _ _ HC t Ht) as Hloc; rewrite Hth in Hloc;
+      kill_mismatch Hloc;
+      unfold FLocal in Hloc; cbn [ftpc ftodo hd_error] in Hloc;
+      pose proof (M_hok _ _ _ _ _ _ _ HM t Ht) as Hok;
+      cbn [map app]; rewrite ?app_nil_r;
+      unfold fset_thr, fset_lane, fset_bla, fset_slots;
+      cbn [fslots fnodes fmap fnext fcount fhandles flanes fbla fthreads].
+    - (* guard, reserved slot present *)
+      apply fframe_step; auto. unfold FLocal, is_OIns. cbn [ftpc ftodo hd_error]. eauto.
+    - (* guard, no reserved slot *)
+      apply fframe_step; auto. unfold FLocal, is_OIns. cbn [ftpc ftodo hd_error]. split; eauto.
+      unfold handle_ok in Hok. destruct (nth t (fhandles st) dhandle) as [[s0|] [nd0|]];
+        cbn [hslot] in *; try discriminate; try contradiction. reflexivity.
+    - (* fetch: guard *)
+      apply fframe_step; auto. unfold FLocal. cbn [ftpc ftodo hd_error]. reflexivity.
+    - (* reserve *)
+      destruct Hloc as [Hd Hi].
+      eapply fmem_step; eauto.
+      + apply mem_reserve; auto.
+      + unfold FLocal. cbn [ftpc ftodo hd_error]. rewrite nth_setn_eq; auto.
+        rewrite (M_hlen _ _ _ _ _ _ _ HM). auto.
+      + intros t0 Hne. apply nth_setn_neq. auto.
+      + lia.
+      + intros i ok (nd & H1 & H2 & H3). exists nd.
+        destruct (M_pub _ _ _ _ _ _ _ HM nd H1) as (Hb & _).
+        unfold nval, nkey in *. rewrite app_nth1 by auto. auto.
+    - (* check: must grow *)
+      apply fframe_step; auto. unfold FLocal. cbn [ftpc ftodo hd_error]. destruct Hloc. eauto.
+    - (* check: slot available *)
+      apply fframe_step; auto. unfold FLocal. cbn [ftpc ftodo hd_error]. destruct Hloc.
+      repeat split; auto. lia.
+    - apply fframe_step; auto.
+    - apply fframe_step; auto.
+    - apply fframe_step; auto.
+    - apply fframe_step; auto.
+    - apply fframe_step; auto.
+    - apply fframe_step; auto.
+    - (* recheck: grow *)
+      apply fframe_step; auto. unfold facq_next. destruct (Nat.ltb _ _); exact Hloc.
+    - (* no grow *)
+      apply fframe_step; auto. destruct Hloc as [[s Hs] Hi]. unfold after_grow. rewrite Hs.
+      unfold FLocal. cbn [ftpc ftodo hd_error]. auto.
+    - apply fframe_step; auto. unfold facq_next. destruct (Nat.ltb _ _); exact Hloc.
+    - (* grow *)
+      destruct Hloc as [[s Hs] Hi].
+      pose proof (dbl_ge dbl_fuel (2 * fcount st) (fnext st)) as Hge.
+      eapply fmem_step; eauto.
+      + apply mem_grow; auto. lia.
+      + unfold FLocal. cbn [ftpc ftodo hd_error]. eauto.
+      + lia.
+      + intros t0 s0 Hne Ht0 Hs0 Hlt. apply app_nth1. rewrite (M_len _ _ _ _ _ _ _ HM). lia.
+    - (* release BeforeLockAll *)
+      apply fframe_step; auto. destruct Hloc as [[s Hs] Hi].
+      unfold frel_next, after_grow. destruct (Nat.ltb _ _); [|rewrite Hs];
+        unfold FLocal; cbn [ftpc ftodo hd_error]; eauto.
+    - apply fframe_step; auto. destruct Hloc as [[s Hs] Hi].
+      unfold frel_next, after_grow. destruct (Nat.ltb _ _); [|rewrite Hs];
+        unfold FLocal; cbn [ftpc ftodo hd_error]; eauto.
+    - (* write the slot *)
+      destruct Hloc as (Hs & Hc & Hi).
+      destruct (handle_some _ _ _ _ _ Hok Hs) as (nd & Hh & Hrest).
+      eapply fmem_step; eauto.
+      + eapply mem_write; eauto. rewrite Hh. cbn. auto.
+      + unfold FLocal. cbn [ftpc ftodo hd_error]. repeat split; auto.
+        rewrite nth_setn_eq; auto. rewrite (M_len _ _ _ _ _ _ _ HM). lia.
+      + lia.
+      + intros t0 s0 Hne Ht0 Hs0 Hlt. apply nth_setn_neq.
+        destruct (M_hdist _ _ _ _ _ _ _ HM t t0 Ht Ht0 ltac:(auto)) as [Hd _].
+        specialize (Hd s Hs). intros E. apply Hd. rewrite Hs0. f_equal. lia.
+    - (* get: found *)
+      destruct Hloc as (Hs & Hc & Hsl & Hi).
+      apply map_find_some in Heqo as [Hf1 Hf2].
+      apply fframe_step; auto. unfold FLocal. cbn [ftpc ftodo hd_error]. repeat split; auto.
+      exists k. split; auto. exists n. auto.
+    - (* get: inserted *)
+      destruct Hloc as (Hs & Hc & Hsl & Hi).
+      destruct (handle_some _ _ _ _ _ Hok Hs) as (nd & Hh & Hb & Hv & Hk & Hnm & Hr & Hu).
+      assert (n = nd) by (rewrite Hh in Heqo0; cbn in Heqo0; congruence). subst n.
+      assert (Hne : forall nd', In nd' (fmap st) -> nd <> nd') by (intros nd' Hx ->; auto).
+      eapply fmem_step; eauto.
+      + eapply mem_insert; eauto.
+        * rewrite Hsl, Hh. reflexivity.
+        * apply map_find_none. auto.
+      + unfold FLocal. cbn [ftpc ftodo hd_error]. exists k. split; auto.
+        exists nd. split; [left; auto|]. unfold nval, nkey. rewrite nth_setn_eq by auto. auto.
+      + intros t0 Hnt. apply nth_setn_neq. auto.
+      + lia.
+      + intros i ok (nd' & H1 & H2 & H3). exists nd'. split; [right; auto|].
+        rewrite nval_setn_neq, nkey_setn_neq by auto. auto.
+    - (* clear the slot *)
+      destruct Hloc as (Hs & Hc & k0 & Ho & Hp).
+      destruct (handle_some _ _ _ _ _ Hok Hs) as (nd & Hh & Hrest).
+      eapply fmem_step; eauto.
+      + eapply mem_write; eauto.
+      + unfold FLocal. cbn [ftpc ftodo hd_error]. eauto.
+      + lia.
+      + intros t0 s0 Hne Ht0 Hs0 Hlt. apply nth_setn_neq.
+        destruct (M_hdist _ _ _ _ _ _ _ HM t t0 Ht Ht0 ltac:(auto)) as [Hd _].
+        specialize (Hd s Hs). intros E. apply Hd. rewrite Hs0. f_equal. lia.
+    - (* return from findOrInsert *)
+      destruct Hloc as (k0 & Ho & Hp). inversion Ho; subst k0.
+      apply fframe_step_hist with (hist := hist); auto.
+      + exact I.
+      + intros r Hr. apply in_app_or in Hr as [Hr|[<-|[]]]; [apply (FC_resp _ _ HC); auto|].
+        exact Hp.
+    - (* fetch: read *)
+      apply fframe_step; auto. unfold FLocal. cbn [ftpc ftodo hd_error]. split; auto.
+      destruct (fetch_now_spec st hist i HC); auto.
+    - (* return from fetch *)
+      destruct Hloc as (Ho & Hp).
+      apply fframe_step_hist with (hist := hist); auto.
+      + exact I.
+      + intros r0 Hr. apply in_app_or in Hr as [Hr|[<-|[]]]; [apply (FC_resp _ _ HC); auto|].
+        exact Hp.
+  Qed.
+
+  (** * Reachable states *)
+
+  Inductive freach (cap0 : N) (progs : list (list op)) : fstate -> list (nat * fresponse) -> Prop :=
+  | fr_init : freach cap0 progs (finit rf cap0 progs) []
+  | fr_step st h t st' rs :
+      freach cap0 progs st h -> fstep st t = Some (st', rs) ->
+      freach cap0 progs st' (h ++ map (pair t) rs).
+
+  Lemma finit_pcof cap0 progs t : fpcof (finit rf cap0 progs) t = FIdle.
+  Proof.
+    unfold fpcof, fpcs, finit. cbn [fthreads].
+    rewrite (nth_map_default _ _ _ []) by reflexivity. reflexivity.
+  Qed.
+
+  Lemma finit_InvL cap0 progs : FInvL (finit rf cap0 progs).
+  Proof.
+    constructor.
+    - unfold finit. cbn. rewrite !map_length. auto.
+    - intros i t Hi. cbn beta. rewrite finit_pcof. cbn [fholds]. unfold finit. cbn [flanes].
+      rewrite (nth_map_default _ _ _ []) by reflexivity. split; discriminate.
+    - intros t. cbn beta. rewrite finit_pcof. cbn. split; discriminate.
+    - intros t Ht. rewrite finit_pcof. exact I.
+  Qed.
+
+  Lemma finit_InvC cap0 progs : cap0 <> 0 -> FInvC (finit rf cap0 progs) [].
+  Proof.
+    intros Hnz.
+    assert (Hh : forall t, nth t (map (fun _ : list op => dhandle) progs) dhandle = dhandle).
+    { intros t. rewrite (nth_map_default _ _ _ []) by reflexivity. reflexivity. }
+    constructor.
+    - unfold finit. cbn [fslots fnodes fmap fnext fcount fhandles fthreads].
+      constructor; auto.
+      + apply repeat_length.
+      + rewrite !map_length. auto.
+      + unfold lo. destruct rf; lia.
+      + constructor.
+      + intros nd [].
+      + constructor.
+      + intros t Ht. rewrite Hh. exact I.
+      + intros t t' _ _ _. rewrite !Hh. cbn. split; intros x Hx; discriminate.
+      + intros i nd Hi. destruct (Nat.lt_ge_cases i (N.to_nat cap0)).
+        * rewrite nth_repeat' in Hi by auto. discriminate.
+        * rewrite nth_overflow in Hi by (rewrite repeat_length; auto). discriminate.
+      + intros i Hi. unfold lo in Hi. destruct rf; lia.
+    - intros t Ht. pose proof (finit_pcof cap0 progs t) as Hp. unfold fpcof, fpcs in Hp.
+      unfold FLocal. rewrite Hp. exact I.
+    - intros r [].
+  Qed.
+
+  Theorem freach_inv cap0 progs st h : cap0 <> 0 -> freach cap0 progs st h -> FInvL st /\ FInvC st h.
+  Proof.
+    intros Hnz Hr. induction Hr.
+    - split; [apply finit_InvL | apply finit_InvC; auto].
+    - destruct IHHr as [HL HC]. split; [eapply fstep_InvL; eauto | eapply fstep_InvC; eauto].
+  Qed.
+
+  Lemma fexec_reach cap0 progs sched : forall st h s out stp,
+    freach cap0 progs st h -> fexec st sched = (s, out, stp) -> freach cap0 progs s (h ++ out).
+  Proof.
+    induction sched as [|t r IH]; intros st h s out stp Hr He; simpl in He.
+    - inversion He; subst. rewrite app_nil_r. auto.
+    - destruct (fstep st t) as [[st' rs]|] eqn:Es.
+      + destruct (fexec st' r) as [[s1 out1] stp1] eqn:Ee. inversion He; subst.
+        rewrite app_assoc. eapply IH; eauto. econstructor; eauto.
+      + eapply IH; eauto.
+  Qed.
+
+  Lemma frun_reach cap0 progs sched s out :
+    frun rf cap0 progs sched = (s, out) -> freach cap0 progs s out.
+  Proof.
+    unfold frun. intros H. destruct (fexec (finit rf cap0 progs) sched) as [[s1 out1] stp] eqn:E.
+    simpl in H. inversion H; subst. change out with ([] ++ out).
+    eapply fexec_reach; eauto. constructor.
+  Qed.
+
+  (** * Bijection between keys and indices *)
+
+  (** [assigned st i]: some published node of the mapping carries index [i]. *)
+  Definition assigned (st : fstate) (i : N) : Prop :=
+    exists nd, In nd (fmap st) /\ nval (fnodes st) nd = i.
+
+  Lemma pub_at_inj st h i1 i2 k1 k2 : FInvC st h ->
+    pub_at (fnodes st) (fmap st) i1 (Some k1) -> pub_at (fnodes st) (fmap st) i2 (Some k2) ->
+    (k1 = k2 <-> i1 = i2).
+  Proof.
+    intros HC (n1 & A1 & B1 & C1) (n2 & A2 & B2 & C2).
+    destruct (FC_mem _ _ HC) as [m1 m2 m3 m4 m5 m6 m7 m8 m9 m10 m11].
+    split; intros E.
+    - assert (n1 = n2).
+      { apply (NoDup_map_inj (nkey (fnodes st)) (fmap st)); auto. congruence. }
+      congruence.
+    - destruct (m6 n1 A1) as (_ & _ & _ & _ & S1). destruct (m6 n2 A2) as (_ & _ & _ & _ & S2).
+      rewrite B1 in S1. rewrite B2 in S2. rewrite E in S1. congruence.
+  Qed.
+
+  Lemma pub_at_fetch st h i k : FInvC st h ->
+    pub_at (fnodes st) (fmap st) i (Some k) -> fetch_now st i = Some k /\ lo <= i.
+  Proof.
+    intros HC (nd & A & B & C). destruct (FC_mem _ _ HC) as [m1 m2 m3 m4 m5 m6 m7 m8 m9 m10 m11].
+    destruct (m6 nd A) as (a & b & c & d & e). rewrite B in *.
+    unfold fetch_now. replace (i <? fcount st) with true by lia. rewrite e. split; [exact C | lia].
+  Qed.
+
+  (** [flyweight_bijection]: over the responses of any reachable state, equal keys got equal
+      indices and different keys different indices; decoding an index that was handed out
+      returns the key (now, hence in every later state, since histories only grow); with
+      reserve-first the index 0 (nil) is never handed out; and a [fetch] that returned a key
+      returned the key the table maps that index to. *)
+  Theorem flyweight_bijection cap0 progs st h : cap0 <> 0 -> freach cap0 progs st h ->
+    (forall t1 t2 k1 k2 i1 i2 b1 b2,
+        In (t1, RIns k1 i1 b1) h -> In (t2, RIns k2 i2 b2) h -> (k1 = k2 <-> i1 = i2))
+    /\ (forall t k i b, In (t, RIns k i b) h -> fetch_now st i = Some k)
+    /\ (rf = true -> forall t k i b, In (t, RIns k i b) h -> i <> 0)
+    /\ (forall t i k, In (t, RFetch i (Some k)) h -> fetch_now st i = Some k).
+  Proof.
+    intros Hnz Hr. destruct (freach_inv _ _ _ _ Hnz Hr) as [HL HC].
+    split; [|split; [|split]].
+    - intros t1 t2 k1 k2 i1 i2 b1 b2 H1 H2.
+      apply (FC_resp _ _ HC) in H1, H2. eapply pub_at_inj; eauto.
+    - intros t k i b H1. apply (FC_resp _ _ HC) in H1. eapply pub_at_fetch; eauto.
+    - intros Hrf t k i b H1. apply (FC_resp _ _ HC) in H1.
+      destruct (pub_at_fetch _ _ _ _ HC H1) as [_ Hlo]. unfold lo in Hlo. rewrite Hrf in Hlo. lia.
+    - intros t i k H1. apply (FC_resp _ _ HC) in H1. cbn in H1.
+      destruct H1 as [H1|H1]; [discriminate|]. eapply pub_at_fetch; eauto.
+  Qed.
+
+  (** * The iterator *)
+
+  Lemma W64_facts : NONE = W64 - 1 /\ END = W64 - 2 /\ 4 < W64.
+  Proof. repeat split. Qed.
+
+  Lemma succ_mod_small s : s < NONE -> (s + 1) mod W64 = s + 1.
+  Proof. intros H. destruct W64_facts as (A & B & C). apply N.mod_small. lia. Qed.
+
+  Lemma succ_mod_none : (NONE + 1) mod W64 = 0.
+  Proof.
+    destruct W64_facts as (A & B & C). replace (NONE + 1) with W64 by lia.
+    apply N.mod_same. lia.
+  Qed.
+
+  Definition gt_slot (s v : N) : Prop := s = NONE \/ s < v.
+  Definition nxt (s : N) : N := if s =? NONE then 0 else s + 1.
+  Definition resb (st : fstate) (i : N) : bool := existsb (fun h => hval h =? i) (fhandles st).
+  (** Index [i] (below NextSlot) is not the reserved slot of any lane and not the nil index. *)
+  Definition asg (st : fstate) (i : N) : bool := (lo <=? i) && negb (resb st i).
+
+  Record IterPre (st : fstate) : Prop := {
+    ip_end : fnext st < END;
+    ip_lo : lo <= fnext st;
+    ip_res : forall h, In h (fhandles st) -> hval h = NONE \/ lo <= hval h < fnext st }.
+
+  Definition Bnd (st : fstate) (s v : N) (h : option nat) : Prop :=
+    gt_slot s v /\ v <= fnext st
+    /\ (forall i, gt_slot s i -> i < v -> resb st i = false)
+    /\ ((h = None /\ v = fnext st)
+        \/ (exists j, h = Some j /\ hval (nth j (fhandles st) dhandle) = v /\ v < fnext st)).
+
+  Definition fn_step (slot : N) (acc : N * option nat * nat) (hd : handle) : N * option nat * nat :=
+    let '(nmus, nmuh, i) := acc in
+    let v := hval hd in
+    if ((slot =? NONE) || (slot <? v)) && (v <? nmus) then (v, Some i, S i) else (nmus, nmuh, S i).
+
+  Definition FI (slot : N) (pre : list handle) (acc : N * option nat * nat) : Prop :=
+    let '(nmus, nmuh, idx) := acc in
+    idx = length pre /\ nmus <= END
+    /\ (forall h, In h pre -> gt_slot slot (hval h) -> hval h < END -> nmus <= hval h)
+    /\ (nmus = END \/ exists j, nmuh = Some j /\ (j < length pre)%nat
+                                /\ hval (nth j pre dhandle) = nmus /\ gt_slot slot nmus /\ nmus < END).
+
+  Lemma gt_slot_b slot v : ((slot =? NONE) || (slot <? v)) = true <-> gt_slot slot v.
+  Proof. unfold gt_slot. split; intros H; lia. Qed.
+
+  Lemma fn_fold slot suf : forall pre acc,
+    FI slot pre acc -> FI slot (pre ++ suf) (fold_left (fn_step slot) suf acc).
+  Proof.
+    induction suf as [|a suf IH]; intros pre acc HI; simpl.
+    - rewrite app_nil_r. auto.
+    - replace (pre ++ a :: suf) with ((pre ++ [a]) ++ suf) by (rewrite <- app_assoc; reflexivity).
+      apply IH. destruct acc as [[nmus nmuh] idx]. destruct HI as (H1 & H2 & H3 & H4).
+      unfold fn_step.
+      destruct (((slot =? NONE) || (slot <? hval a)) && (hval a <? nmus)) eqn:E.
+      + apply andb_true_iff in E as [E1 E2]. apply gt_slot_b in E1.
+        unfold FI. rewrite app_length. simpl. split; [lia|]. split; [lia|]. split.
+        * intros h Hh Hg Hl. apply in_app_or in Hh as [Hh|[<-|[]]]; [|lia].
+          specialize (H3 h Hh Hg Hl). lia.
+        * right. exists idx. subst idx. split; auto. split; [lia|].
+          rewrite app_nth2 by lia. rewrite Nat.sub_diag. simpl. split; auto. split; auto. lia.
+      + unfold FI. rewrite app_length. simpl. split; [lia|]. split; [lia|]. split.
+        * intros h Hh Hg Hl. apply in_app_or in Hh as [Hh|[<-|[]]]; [auto|].
+          apply gt_slot_b in Hg. rewrite Hg in E. simpl in E. lia.
+        * destruct H4 as [H4|(j & J1 & J2 & J3 & J4)]; [left; auto|].
+          right. exists j. split; auto. split; [lia|]. rewrite app_nth1 by auto. auto.
+  Qed.
+
+  Lemma resb_true st i : resb st i = true -> exists h, In h (fhandles st) /\ hval h = i.
+  Proof.
+    unfold resb. intros H. apply existsb_exists in H as (h & H1 & H2). exists h. split; auto. lia.
+  Qed.
+
+  Lemma find_next_spec st slot : IterPre st -> (slot = NONE \/ slot < fnext st) ->
+    let (v, h) := find_next st slot in Bnd st slot v h.
+  Proof.
+    intros HP Hs. destruct HP as [p1 p2 p3]. destruct W64_facts as (A & B & C).
+    unfold find_next.
+    change (fold_left _ (fhandles st) (END, None, O))
+      with (fold_left (fn_step slot) (fhandles st) (END, None, O)).
+    pose proof (fn_fold slot (fhandles st) [] (END, None, O)) as HF. simpl in HF.
+    specialize (HF ltac:(repeat split; auto; [lia | intros h []])).
+    destruct (fold_left (fn_step slot) (fhandles st) (END, None, O)) as [[nmus nmuh] idx].
+    destruct HF as (H1 & H2 & H3 & H4).
+    destruct (nmus =? END) eqn:E.
+    - assert (nmus = END) by lia. subst nmus. unfold Bnd. split; [unfold gt_slot; lia|].
+      split; [lia|]. split; [|left; auto].
+      intros i Hg Hi. destruct (resb st i) eqn:Er; auto. exfalso.
+      apply resb_true in Er as (h & Hh & Hv). subst i. specialize (H3 h Hh Hg ltac:(lia)). lia.
+    - destruct H4 as [H4|(j & J1 & J2 & J3 & J4 & J5)]; [lia|].
+      assert (Hin : In (nth j (fhandles st) dhandle) (fhandles st)) by (apply nth_In; auto).
+      destruct (p3 _ Hin) as [Hn|Hn]; [lia|].
+      unfold Bnd. split; auto. split; [lia|]. split.
+      + intros i Hg Hi. destruct (resb st i) eqn:Er; auto. exfalso.
+        apply resb_true in Er as (h & Hh & Hv). subst i. specialize (H3 h Hh Hg ltac:(lia)). lia.
+      + right. exists j. repeat split; auto. lia.
+  Qed.
+
+  Lemma nxt_mod st s : IterPre st -> (s = NONE \/ s < fnext st) -> (s + 1) mod W64 = nxt s.
+  Proof.
+    intros HP Hs. destruct HP as [p1 p2 p3]. destruct W64_facts as (A & B & C). unfold nxt.
+    destruct (s =? NONE) eqn:E.
+    - assert (s = NONE) by lia. subst. apply succ_mod_none.
+    - apply succ_mod_small. lia.
+  Qed.
+
+  Lemma Bnd_next st s v h : IterPre st -> (s = NONE \/ s < fnext st) ->
+    Bnd st s v h -> nxt s < v -> Bnd st (nxt s) v h.
+  Proof.
+    intros HP Hs (B1 & B2 & B3 & B4) Hlt. destruct W64_facts as (A & B & C).
+    destruct HP as [p1 p2 p3].
+    unfold Bnd. split; [right; auto|]. split; auto. split; auto.
+    intros i Hg Hi. apply B3; auto. unfold gt_slot, nxt in *.
+    destruct (s =? NONE) eqn:E; [left; lia|]. destruct Hg as [Hg|Hg]; [lia|]. right. lia.
+  Qed.
+
+  Lemma move_next_spec st fuel : forall s v h,
+    IterPre st -> (s = NONE \/ s < fnext st) -> Bnd st s v h ->
+    (N.to_nat (fnext st) - N.to_nat (nxt s) + 1 <= fuel)%nat ->
+    let '(r, v', h') := move_next rf st fuel s v h in
+    (r = END /\ forall i, nxt s <= i < fnext st -> asg st i = false)
+    \/ (r < fnext st /\ nxt s <= r /\ asg st r = true
+        /\ (forall i, nxt s <= i < r -> asg st i = false) /\ Bnd st r v' h').
+  Proof.
+    induction fuel as [|f IH]; intros s v h HP Hs HB Hf; [lia|].
+    pose proof HP as [p1 p2 p3]. destruct W64_facts as (A & B & C).
+    pose proof HB as (B1 & B2 & B3 & B4).
+    cbn [move_next]. replace (s =? END) with false by lia.
+    rewrite (nxt_mod st s HP Hs). set (s1 := nxt s) in *.
+    assert (Hs1 : s1 <= fnext st).
+    { unfold s1, nxt. destruct (s =? NONE) eqn:E; lia. }
+    assert (Hgs1 : gt_slot s s1).
+    { unfold gt_slot, s1, nxt. destruct (s =? NONE) eqn:E; lia. }
+    destruct (s1 <? v) eqn:E1.
+    - assert (Hr : resb st s1 = false) by (apply B3; auto; lia).
+      destruct ((s1 =? 0) && rf) eqn:E2.
+      + (* the reserved nil slot is skipped *)
+        apply andb_true_iff in E2 as [E2 E3].
+        assert (Hb' : Bnd st s1 v h) by (apply Bnd_next; auto; lia).
+        assert (Ha : asg st s1 = false).
+        { unfold asg, lo. rewrite E3. replace (1 <=? s1) with false by lia. reflexivity. }
+        assert (Hn1 : nxt s1 = s1 + 1) by (unfold nxt; replace (s1 =? NONE) with false by lia; auto).
+        specialize (IH s1 v h HP ltac:(right; lia) Hb' ltac:(lia)).
+        destruct (move_next rf st f s1 v h) as [[r v'] h'].
+        destruct IH as [(I1 & I2)|(I1 & I2 & I3 & I4 & I5)].
+        * left. split; auto. intros i Hi. destruct (N.eq_dec i s1) as [->|Hne]; auto.
+          apply I2. lia.
+        * right. split; [lia|]. split; [lia|]. split; [auto|]. split; [|auto]. intros i Hi.
+          destruct (N.eq_dec i s1) as [->|Hne]; auto. apply I4. lia.
+      + right. split; [lia|]. split; [lia|]. split; [|split].
+        * unfold asg. rewrite Hr. unfold lo. destruct rf; simpl in *; lia.
+        * intros i Hi. lia.
+        * apply Bnd_next; auto. lia.
+    - assert (Hv : v = s1).
+      { unfold gt_slot, s1, nxt in *. destruct (s =? NONE) eqn:E; lia. }
+      subst v. destruct B4 as [[-> B4]|(j & -> & J1 & J2)].
+      + left. split; auto. intros i Hi. lia.
+      + rewrite J1. replace (s1 <? s1) with false by lia.
+        assert (Ha : asg st s1 = false).
+        { unfold asg. replace (resb st s1) with true; [apply andb_false_r|].
+          symmetry. unfold resb. apply existsb_exists. exists (nth j (fhandles st) dhandle).
+          split; [|lia]. apply nth_In.
+          destruct (Nat.lt_ge_cases j (length (fhandles st))); auto.
+          rewrite nth_overflow in J1 by auto. cbn in J1. lia. }
+        pose proof (find_next_spec st s1 HP ltac:(right; lia)) as Hfn.
+        destruct (find_next st s1) as [v' h'].
+        assert (Hn1 : nxt s1 = s1 + 1) by (unfold nxt; replace (s1 =? NONE) with false by lia; auto).
+        specialize (IH s1 v' h' HP ltac:(right; lia) Hfn ltac:(lia)).
+        destruct (move_next rf st f s1 v' h') as [[r v''] h''].
+        destruct IH as [(I1 & I2)|(I1 & I2 & I3 & I4 & I5)].
+        * left. split; auto. intros i Hi. destruct (N.eq_dec i s1) as [->|Hne]; auto.
+          apply I2. lia.
+        * right. split; [lia|]. split; [lia|]. split; [auto|]. split; [|auto]. intros i Hi.
+          destruct (N.eq_dec i s1) as [->|Hne]; auto. apply I4. lia.
+  Qed.
+
+  Definition rangeN (a n : N) : list N :=
+    map N.of_nat (seq (N.to_nat a) (N.to_nat n - N.to_nat a)).
+
+  Lemma rangeN_cons a n : a < n -> rangeN a n = a :: rangeN (a + 1) n.
+  Proof.
+    intros H. unfold rangeN.
+    replace (N.to_nat n - N.to_nat a)%nat with (S (N.to_nat n - N.to_nat (a + 1))) by lia.
+    cbn [seq map]. rewrite N2Nat.id. f_equal. f_equal. f_equal. lia.
+  Qed.
+
+  Lemma rangeN_nil a n : n <= a -> rangeN a n = [].
+  Proof.
+    intros H. unfold rangeN. replace (N.to_nat n - N.to_nat a)%nat with O by lia. reflexivity.
+  Qed.
+
+  Lemma in_rangeN a n i : In i (rangeN a n) <-> a <= i < n.
+  Proof.
+    unfold rangeN. rewrite in_map_iff. split.
+    - intros (x & <- & Hx). apply in_seq in Hx. lia.
+    - intros H. exists (N.to_nat i). split; [apply N2Nat.id|]. apply in_seq. lia.
+  Qed.
+
+  Lemma NoDup_map_seq len : forall st0, NoDup (map N.of_nat (seq st0 len)).
+  Proof.
+    induction len as [|len IH]; intros st0; simpl; constructor.
+    - rewrite in_map_iff. intros (x & Hx & Hi). apply in_seq in Hi. lia.
+    - apply IH.
+  Qed.
+
+  Lemma NoDup_rangeN a n : NoDup (rangeN a n).
+  Proof. apply NoDup_map_seq. Qed.
+
+  Lemma filter_none (f : N -> bool) n : forall k a, (N.to_nat n - N.to_nat a <= k)%nat ->
+    (forall i, a <= i < n -> f i = false) -> filter f (rangeN a n) = [].
+  Proof.
+    induction k as [|k IH]; intros a Hk Hf.
+    - rewrite rangeN_nil by lia. reflexivity.
+    - destruct (N.lt_ge_cases a n) as [Hl|Hl]; [|rewrite rangeN_nil by lia; reflexivity].
+      rewrite rangeN_cons by auto. simpl. rewrite Hf by lia. apply IH; [lia|].
+      intros i Hi. apply Hf. lia.
+  Qed.
+
+  Lemma filter_skip (f : N -> bool) n r : forall k a, (N.to_nat r - N.to_nat a <= k)%nat ->
+    a <= r -> r < n -> (forall i, a <= i < r -> f i = false) -> f r = true ->
+    filter f (rangeN a n) = r :: filter f (rangeN (r + 1) n).
+  Proof.
+    induction k as [|k IH]; intros a Hk Har Hrn Hf Hr.
+    - assert (a = r) by lia. subst a. rewrite rangeN_cons by auto. simpl. rewrite Hr. reflexivity.
+    - destruct (N.eq_dec a r) as [->|Hne].
+      + rewrite rangeN_cons by auto. simpl. rewrite Hr. reflexivity.
+      + rewrite rangeN_cons by lia. simpl. rewrite Hf by lia. apply IH; auto; try lia.
+        intros i Hi. apply Hf. lia.
+  Qed.
+
+  Lemma iter_loop_end st fuel fuel2 v h : iter_loop rf st fuel fuel2 END v h = [].
+  Proof. destruct fuel; simpl; auto. Qed.
+
+  Lemma iter_loop_spec st fuel2 : IterPre st -> (N.to_nat (fnext st) + 2 <= fuel2)%nat ->
+    forall fuel r v h, r < fnext st -> Bnd st r v h ->
+      (N.to_nat (fnext st) - N.to_nat r <= fuel)%nat ->
+      iter_loop rf st fuel fuel2 r v h = r :: filter (asg st) (rangeN (r + 1) (fnext st)).
+  Proof.
+    intros HP Hf2. pose proof HP as [p1 p2 p3]. destruct W64_facts as (A & B & C).
+    induction fuel as [|f IH]; intros r v h Hr HB Hf; [lia|].
+    cbn [iter_loop]. replace (r =? END) with false by lia. f_equal.
+    assert (Hn : nxt r = r + 1) by (unfold nxt; replace (r =? NONE) with false by lia; auto).
+    pose proof (move_next_spec st fuel2 r v h HP ltac:(right; auto) HB ltac:(lia)) as Hm.
+    destruct (move_next rf st fuel2 r v h) as [[r' v'] h'].
+    rewrite Hn in Hm. destruct Hm as [(M1 & M2)|(M1 & M2 & M3 & M4 & M5)].
+    - subst r'. rewrite iter_loop_end. symmetry.
+      apply (filter_none _ _ (N.to_nat (fnext st))); auto. lia.
+    - rewrite (IH r' v' h') by (auto; lia). symmetry.
+      apply (filter_skip _ _ _ (N.to_nat r')); auto. lia.
+  Qed.
+
+  Theorem iterate_spec st : IterPre st ->
+    iterate rf st = filter (asg st) (rangeN 0 (fnext st)).
+  Proof.
+    intros HP. pose proof HP as [p1 p2 p3]. destruct W64_facts as (A & B & C).
+    unfold iterate.
+    pose proof (find_next_spec st NONE HP ltac:(left; auto)) as Hfn.
+    destruct (find_next st NONE) as [a b].
+    assert (Hn : nxt NONE = 0) by (unfold nxt; rewrite N.eqb_refl; auto).
+    set (F := (N.to_nat (fnext st) + length (fhandles st) + 3)%nat).
+    pose proof (move_next_spec st F NONE a b HP ltac:(left; auto) Hfn ltac:(lia)) as Hm.
+    destruct (move_next rf st F NONE a b) as [[r v'] h'].
+    rewrite Hn in Hm. destruct Hm as [(M1 & M2)|(M1 & M2 & M3 & M4 & M5)].
+    - subst r. rewrite iter_loop_end. symmetry.
+      apply (filter_none _ _ (N.to_nat (fnext st))); auto. lia.
+    - rewrite (iter_loop_spec st F HP ltac:(lia) F r v' h') by (auto; lia). symmetry.
+      apply (filter_skip _ _ _ (N.to_nat r)); auto. lia.
+  Qed.
+
+  Lemma MemOK_IterPre st h : FInvC st h -> fnext st < END -> IterPre st.
+  Proof.
+    intros HC He. destruct (FC_mem _ _ HC) as [m1 m2 m3 m4 m5 m6 m7 m8 m9 m10 m11].
+    constructor; auto.
+    intros hd Hin. apply (In_nth _ _ dhandle) in Hin as (t & Ht & <-).
+    rewrite m3 in Ht. pose proof (m8 t Ht) as Hok. unfold handle_ok, hval in *.
+    destruct (nth t (fhandles st) dhandle) as [[s|] [nd|]]; cbn [hslot]; auto; try contradiction.
+    right. tauto.
+  Qed.
+
+  Lemma asg_assigned st h i : FInvC st h -> fnext st < END ->
+    (i < fnext st /\ asg st i = true) <-> assigned st i.
+  Proof.
+    intros HC He. destruct (FC_mem _ _ HC) as [m1 m2 m3 m4 m5 m6 m7 m8 m9 m10 m11].
+    destruct W64_facts as (A & B & C). unfold asg. split.
+    - intros [Hi Ha]. apply andb_true_iff in Ha as [Ha1 Ha2]. apply negb_true_iff in Ha2.
+      destruct (m11 i ltac:(lia)) as [Hc|(t & Ht & Hs)]; [exact Hc|]. exfalso.
+      assert (resb st i = true); [|congruence].
+      unfold resb. apply existsb_exists. exists (nth t (fhandles st) dhandle). split.
+      + apply nth_In. lia.
+      + unfold hval. rewrite Hs. lia.
+    - intros (nd & Hnd & Hv). destruct (m6 nd Hnd) as (a & b & c & d & e). rewrite Hv in *.
+      split; [lia|]. apply andb_true_iff. split; [lia|]. apply negb_true_iff.
+      destruct (resb st i) eqn:Er; auto. exfalso.
+      apply resb_true in Er as (hd & Hin & Hh).
+      apply (In_nth _ _ dhandle) in Hin as (t & Ht & <-). rewrite m3 in Ht.
+      assert (Hs : hslot (nth t (fhandles st) dhandle) = Some i).
+      { unfold hval in Hh. destruct (hslot (nth t (fhandles st) dhandle)); [congruence|lia]. }
+      destruct (handle_some _ _ _ _ _ (m8 t Ht) Hs) as (nd' & _ & _ & _ & _ & _ & _ & Hu).
+      apply (Hu nd Hnd). auto.
+  Qed.
+
+  Lemma NoDup_map_on {A B} (f : A -> B) l :
+    NoDup l -> (forall x y, In x l -> In y l -> f x = f y -> x = y) -> NoDup (map f l).
+  Proof.
+    induction l as [|a l IH]; simpl; intros Hn Hinj; constructor.
+    - inversion Hn; subst. intros Hi. apply in_map_iff in Hi as (y & Hy & Hyl).
+      assert (y = a) by (apply Hinj; auto). subst. auto.
+    - inversion Hn; subst. apply IH; auto.
+  Qed.
+
+  (** [iter_lists_each_once]: in a quiescent reachable state (whatever growth happened before),
+      the iterator yields every assigned index exactly once, in increasing order, skipping the
+      lanes' reserved-but-unused slots and the nil index; the keys it shows are pairwise distinct
+      and include every key that was ever returned by a findOrInsert. *)
+  Theorem iter_lists_each_once cap0 progs st h : cap0 <> 0 -> freach cap0 progs st h ->
+    fnext st < END -> fquiescent st = true ->
+    iterate rf st = filter (asg st) (rangeN 0 (fnext st))
+    /\ NoDup (iterate rf st)
+    /\ (forall i, In i (iterate rf st) <-> assigned st i)
+    /\ NoDup (map (fetch_now st) (iterate rf st))
+    /\ (forall t k i b, In (t, RIns k i b) h -> In i (iterate rf st) /\ fetch_now st i = Some k).
+  Proof.
+    intros Hnz Hr He _. destruct (freach_inv _ _ _ _ Hnz Hr) as [HL HC].
+    pose proof (MemOK_IterPre _ _ HC He) as HP.
+    pose proof (iterate_spec st HP) as Hit.
+    assert (Hin : forall i, In i (iterate rf st) <-> assigned st i).
+    { intros i. rewrite Hit, filter_In, in_rangeN. rewrite <- (asg_assigned st h i HC He).
+      split; intros [H1 H2]; split; auto; lia. }
+    split; [exact Hit|]. split; [|split; [exact Hin|split]].
+    - rewrite Hit. apply NoDup_filter. apply NoDup_rangeN.
+    - apply NoDup_map_on.
+      + rewrite Hit. apply NoDup_filter. apply NoDup_rangeN.
+      + intros x y Hx Hy Hf. apply Hin in Hx, Hy.
+        destruct Hx as (n1 & A1 & B1). destruct Hy as (n2 & A2 & B2).
+        destruct (M_pub _ _ _ _ _ _ _ (FC_mem _ _ HC) n1 A1) as (_ & [k1 K1] & _).
+        destruct (M_pub _ _ _ _ _ _ _ (FC_mem _ _ HC) n2 A2) as (_ & [k2 K2] & _).
+        assert (P1 : pub_at (fnodes st) (fmap st) x (Some k1)) by (exists n1; auto).
+        assert (P2 : pub_at (fnodes st) (fmap st) y (Some k2)) by (exists n2; auto).
+        destruct (pub_at_fetch _ _ _ _ HC P1) as [F1 _]. destruct (pub_at_fetch _ _ _ _ HC P2) as [F2 _].
+        apply (pub_at_inj _ _ _ _ _ _ HC P1 P2). congruence.
+    - intros t k i b Hi. apply (FC_resp _ _ HC) in Hi. cbn in Hi. split.
+      + apply Hin. destruct Hi as (nd & A1 & B1 & C1). exists nd. auto.
+      + eapply pub_at_fetch; eauto.
+  Qed.
+
+  (** Growth of the slot array: all other threads are outside their lanes, and the step keeps
+      what every index decodes to. *)
+  Theorem fgrow_preserves cap0 progs st h g : cap0 <> 0 -> freach cap0 progs st h ->
+    (g < length (fthreads st))%nat -> fpcof st g = FGrow ->
+    (forall t, (t < length (fthreads st))%nat -> t <> g -> foutside (fpcof st t))
+    /\ exists st', fstep st g = Some (st', [])
+         /\ fcount st < fcount st'
+         /\ (forall i, i < fcount st -> fetch_now st' i = fetch_now st i)
+         /\ fmap st' = fmap st.
+  Proof.
+    intros Hnz Hr Hg Hp. destruct (freach_inv _ _ _ _ Hnz Hr) as [HL HC].
+    split; [intros t Ht Hne; apply (fgrow_exclusive st g HL Hg Hp t Ht Hne)|].
+    pose proof (FC_local _ _ HC g Hg) as Hl. unfold fpcof, fpcs in Hp.
+    destruct (nth g (fthreads st) dfthread) as [td p] eqn:Hth. cbn [ftpc] in Hp. subst p.
+    unfold FLocal in Hl. cbn [ftpc ftodo] in Hl. destruct Hl as [_ [k Hk]].
+    destruct td as [|o rest]; [discriminate|]. cbn in Hk. inversion Hk; subst o.
+    assert (Hnth : nth_error (fthreads st) g = Some (mkFThread (OIns k :: rest) FGrow)).
+    { rewrite <- Hth. apply List.nth_error_nth'. auto. }
+    pose proof (dbl_ge dbl_fuel (2 * fcount st) (fnext st)) as Hge.
+    pose proof (M_cnt _ _ _ _ _ _ _ (FC_mem _ _ HC)) as Hc0.
+    pose proof (M_len _ _ _ _ _ _ _ (FC_mem _ _ HC)) as Hlen.
+    eexists. split; [unfold fstep; rewrite Hnth; reflexivity|].
+    unfold fset_thr. cbn [fslots fnodes fmap fnext fcount fhandles flanes fbla fthreads].
+    split; [lia|]. split; [|reflexivity].
+    intros i Hi. unfold fetch_now. cbn [fslots fnodes fcount].
+    replace (i <? fcount st) with true by lia.
+    replace (i <? dbl dbl_fuel (2 * fcount st) (fnext st)) with true by lia.
+    rewrite app_nth1 by lia. reflexivity.
+  Qed.
+
+  (** ** The same statements for [frun], i.e. for every schedule *)
+
+  Theorem frun_bijection cap0 progs sched : cap0 <> 0 ->
+    let st := fst (frun rf cap0 progs sched) in
+    let h := snd (frun rf cap0 progs sched) in
+    (forall t1 t2 k1 k2 i1 i2 b1 b2,
+        In (t1, RIns k1 i1 b1) h -> In (t2, RIns k2 i2 b2) h -> (k1 = k2 <-> i1 = i2))
+    /\ (forall t k i b, In (t, RIns k i b) h -> fetch_now st i = Some k)
+    /\ (rf = true -> forall t k i b, In (t, RIns k i b) h -> i <> 0)
+    /\ (forall t i k, In (t, RFetch i (Some k)) h -> fetch_now st i = Some k).
+  Proof.
+    intros Hnz. destruct (frun rf cap0 progs sched) as [s out] eqn:E.
+    apply frun_reach in E. cbn [fst snd]. eapply flyweight_bijection; eauto.
+  Qed.
+
+  Theorem frun_iter_lists_each_once cap0 progs sched : cap0 <> 0 ->
+    let st := fst (frun rf cap0 progs sched) in
+    let h := snd (frun rf cap0 progs sched) in
+    fnext st < END -> fquiescent st = true ->
+    iterate rf st = filter (asg st) (rangeN 0 (fnext st))
+    /\ NoDup (iterate rf st)
+    /\ (forall i, In i (iterate rf st) <-> assigned st i)
+    /\ NoDup (map (fetch_now st) (iterate rf st))
+    /\ (forall t k i b, In (t, RIns k i b) h -> In i (iterate rf st) /\ fetch_now st i = Some k).
+  Proof.
+    intros Hnz. destruct (frun rf cap0 progs sched) as [s out] eqn:E.
+    apply frun_reach in E. cbn [fst snd]. eapply iter_lists_each_once; eauto.
+  Qed.
+
+  Theorem frun_grow_preserves cap0 progs sched g : cap0 <> 0 ->
+    let st := fst (frun rf cap0 progs sched) in
+    (g < length (fthreads st))%nat -> fpcof st g = FGrow ->
+    (forall t, (t < length (fthreads st))%nat -> t <> g -> foutside (fpcof st t))
+    /\ exists st', fstep st g = Some (st', [])
+         /\ fcount st < fcount st'
+         /\ (forall i, i < fcount st -> fetch_now st' i = fetch_now st i)
+         /\ fmap st' = fmap st.
+  Proof.
+    intros Hnz. destruct (frun rf cap0 progs sched) as [s out] eqn:E.
+    apply frun_reach in E. cbn [fst]. eapply fgrow_preserves; eauto.
+  Qed.
+
+  (** ** Soundness of the exhaustive exploration *)
+
+  Lemma fdedup_in l c : In c l -> In c (fdedup l).
+  Proof.
+    induction l as [|a l IH]; simpl; intros Hc; [contradiction|].
+    unfold finsert_new. destruct (existsb _ (fdedup l)) eqn:E.
+    - destruct Hc as [<-|Hc]; auto.
+      apply existsb_exists in E as (c' & Hc' & Hd). destruct (fconfig_eq_dec a c'); [subst; auto|discriminate].
+    - destruct Hc as [<-|Hc]; [left; auto | right; auto].
+  Qed.
+
+  Lemma fsuccs_in st rs t st' out : fstep st t = Some (st', out) ->
+    In (st', rs ++ map (pair t) out) (fsuccs (st, rs)).
+  Proof.
+    intros Hs. unfold fsuccs. apply in_flat_map. exists t. split.
+    - apply in_seq. unfold fstep in Hs.
+      destruct (nth_error (fthreads st) t) eqn:E; [|discriminate].
+      assert (t < length (fthreads st))%nat by (apply nth_error_Some; congruence). lia.
+    - rewrite Hs. left. reflexivity.
+  Qed.
+
+  Lemma fexplore_sound sched : forall fuel layer st rs s out stp,
+    fexplore rf fuel layer = true -> In (st, rs) layer ->
+    fexec st sched = (s, out, stp) ->
+    fmon rf s (rs ++ out) = true /\ fstuck (s, rs ++ out) = false.
+  Proof.
+    induction sched as [|t r IH]; intros fuel layer st rs s out stp He Hin Hx.
+    - simpl in Hx. inversion Hx; subst. rewrite app_nil_r.
+      destruct fuel; simpl in He; apply andb_true_iff in He as [He _];
+        rewrite forallb_forall in He; specialize (He _ Hin); cbn [fst snd] in He;
+        apply andb_true_iff in He as [H1 H2]; apply negb_true_iff in H2; auto.
+    - simpl in Hx. destruct (fstep st t) as [[st' rs']|] eqn:Es; [|eapply IH; eauto].
+      destruct (fexec st' r) as [[s1 out1] stp1] eqn:Ee. inversion Hx; subst.
+      assert (He' : exists f, fuel = S f /\ fexplore rf f (fnext_layer layer) = true).
+      { destruct layer; [destruct Hin|]. destruct fuel; simpl in He; apply andb_true_iff in He as [_ He];
+          [discriminate | eauto]. }
+      destruct He' as (f & -> & He'). rewrite app_assoc.
+      eapply IH; [exact He' | | exact Ee].
+      unfold fnext_layer. apply fdedup_in. apply in_flat_map. exists (st, rs). split; auto.
+      apply fsuccs_in. auto.
+  Qed.
+
+  Lemma fexplore_run progs cap0 fuel :
+    fexplore rf fuel [(finit rf cap0 progs, [])] = true ->
+    forall sched,
+      let '(st, rs) := frun rf cap0 progs sched in
+      fmon rf st rs = true /\ fstuck (st, rs) = false.
+  Proof.
+    intros He sched. unfold frun.
+    destruct (fexec (finit rf cap0 progs) sched) as [[s out] stp] eqn:E.
+    cbn [fst]. change out with ([] ++ out).
+    eapply fexplore_sound; eauto. left. reflexivity.
+  Qed.
 End FProofs.
+
+(** * Bounded exhaustive checks (every interleaving) and examples *)
+Local Open Scope N_scope.
+
+(** Record-table style (reserve-first), capacity 2: two lanes, each packs two records (one in
+    common) and unpacks one reference; the second reservation on each lane needs a growth, so
+    both lanes contend for it. Monitor: key/index bijection over all responses, decode after
+    encode, nil never handed out, fetch never wrong, and at quiescence the iterator lists exactly
+    the assigned indices once. Every schedule. *)
+Theorem fexhaustive_2x3_reserve_first : forall sched,
+  let '(st, rs) := frun true 2 [[OIns 5; OIns 9; OFetch 1]; [OIns 5; OIns 13; OFetch 2]] sched in
+  fmon true st rs = true /\ fstuck (st, rs) = false.
+Proof. apply (fexplore_run true _ _ 200%nat). vm_compute. reflexivity. Qed.
+
+(** Symbol-table style (not reserve-first), capacity 1, the two lanes insert the same two keys in
+    opposite orders (every insertion races with an equal key; two growths). *)
+Theorem fexhaustive_2x2_symbols : forall sched,
+  let '(st, rs) := frun false 1 [[OIns 5; OIns 9]; [OIns 9; OIns 5]] sched in
+  fmon false st rs = true /\ fstuck (st, rs) = false.
+Proof. apply (fexplore_run false _ _ 200%nat). vm_compute. reflexivity. Qed.
+
+(** Three lanes (lockAllBut over two other lanes), capacity 1, reserve-first. *)
+Theorem fexhaustive_3x1_growth : forall sched,
+  let '(st, rs) := frun true 1 [[OIns 5]; [OIns 9]; [OIns 5]] sched in
+  fmon true st rs = true /\ fstuck (st, rs) = false.
+Proof. apply (fexplore_run true _ _ 200%nat). vm_compute. reflexivity. Qed.
+
+Fixpoint round_robin (n : nat) : list nat :=
+  match n with O => [] | S k => [0; 1]%nat ++ round_robin k end.
+
+(** The hypotheses of the general theorems hold for a concrete run with growth: capacity 2 <> 0,
+    the run is quiescent at the end and NextSlot is far below END. Lane 1 loses the race for
+    key 5, keeps its reserved slot 2 and uses it for key 13; the iterator lists 1, 2, 3. *)
+Example flyweight_instance :
+  let r := frun true 2 [[OIns 5; OIns 9; OFetch 1]; [OIns 5; OIns 13; OFetch 2]] (round_robin 60) in
+  2 <> 0 /\ fquiescent (fst r) = true /\ fnext (fst r) = 4 /\ fnext (fst r) < END
+  /\ fcount (fst r) = 4
+  /\ snd r = [(0, RIns 5 1 true); (1, RIns 5 1 false); (0, RIns 9 3 true); (0, RFetch 1 (Some 5));
+              (1, RIns 13 2 true); (1, RFetch 2 (Some 13))]%nat
+  /\ iterate true (fst r) = [1; 2; 3]
+  /\ map (fetch_now (fst r)) (iterate true (fst r)) = [Some 5; Some 13; Some 9].
+Proof. vm_compute. repeat split; try reflexivity. discriminate. Qed.
+
+(** A quiescent state in which a lane still holds a reserved, unused slot (lane 1 lost the race
+    for key 5): the iterator skips slot 1 and the nil slot 0. *)
+Example iterator_skips_reserved_slot :
+  let r := frun true 4 [[OIns 5]; [OIns 5]] [0; 1; 0; 1; 0; 1; 0; 1; 0; 1; 1; 1; 0; 0; 1; 1]%nat in
+  fquiescent (fst r) = true
+  /\ snd r = [(0, RIns 5 2 true); (1, RIns 5 2 false)]%nat
+  /\ map hslot (fhandles (fst r)) = [None; Some 1]
+  /\ iterate true (fst r) = [2].
+Proof. vm_compute. repeat split; reflexivity. Qed.
+
+(** A state where lane 0 is in the safe section of tryGrow ([fgrow_preserves] applies). *)
+Example reaches_fgrow :
+  let st := fst (frun false 1 [[OIns 5; OIns 9]; [OIns 13]] [0; 0; 0; 0; 0; 0; 0; 0; 0; 0; 0; 0]%nat) in
+  (0 < length (fthreads st))%nat /\ fpcof st 0%nat = FGrow /\ flanes st = [Some 0%nat; Some 0%nat]
+  /\ fstep st 1%nat = None.
+Proof. vm_compute. repeat split; reflexivity. Qed.
+
+(* NOT PROVED (flyweight):
+   - [Mapping.get] is one atomic step of the flyweight model; that the concrete hash map may be
+     used in its place is argued (comment at the top of FlyweightDefs.v) from
+     [get_unique_node], not proved as a refinement between the two models.
+   - The iterator is modelled and proved only as run in a quiescent state (a pure function of the
+     state); an iterator running concurrently with insertions is not modelled.
+   - "exactly one findOrInsert per key reports inserted = true" is not stated for the flyweight
+     (it is for the hash map).
+   - Deadlock freedom only in the bounded explorations ([fstuck = false]).
+   - Initial capacity 0 is excluded by hypothesis ([cap0 <> 0]); with capacity 0 the doubling
+     loop of [tryGrow] never terminates in the C++ (0 << 1 = 0), see the comment at [dbl]. *)
